@@ -123,28 +123,36 @@ def pa_type(series):
 
 
 def make_dataset(df: pd.DataFrame, path: Path, *, extra_levels=(), key_cols=("ScanNr", "ExpMass"),
-                 row_group=None, feature_cols=None):
-    """Write df to `path` (.pin / .parquet) and wrap it in an OnDiskPsmDataset (public constructor)."""
+                 row_group=None, feature_cols=None, rename=None):
+    """Write df to `path` (.pin / .parquet) and wrap it in an OnDiskPsmDataset (public constructor).
+    rename: {canonical column name -> name in the file}, e.g. {"ret_time": "ret-time", "ExpMass": "Exp Mass"}: column names
+    that are not Python identifiers (the dataset is told the real names; nothing may depend on them being identifiers)."""
     from mokapot.dataset import OnDiskPsmDataset
     from mokapot.utils import convert_targets_column
+    rn = dict(rename or {})
+    R = lambda c: rn.get(c, c)      # noqa: E731
+    if rn:
+        attrs = dict(df.attrs)
+        df = df.rename(columns=rn)
+        df.attrs.update({k: [R(c) for c in v] if isinstance(v, list) else v for k, v in attrs.items()})
     path = write_table(df, Path(path), row_group)
     cols = list(df.columns)
     feats = feature_cols if feature_cols is not None else [c for c in cols if c.startswith("f") and c[1:].isdigit()]
-    level_cols = ["Peptide"] + [LEVEL_COLS[lv] for lv in extra_levels]
-    opt = [c for c in ("filename", "ExpMass", "ret_time") if c in cols]
-    meta = ["SpecId", "ScanNr", "Peptide", "Proteins", "Label"] + level_cols[1:] + opt
-    key = list(key_cols)
+    level_cols = [R("Peptide")] + [R(LEVEL_COLS[lv]) for lv in extra_levels]
+    opt = [R(c) for c in ("filename", "ExpMass", "ret_time") if R(c) in cols]
+    meta = ["SpecId", "ScanNr", R("Peptide"), "Proteins", "Label"] + level_cols[1:] + opt
+    key = [R(c) for c in key_cols]
     sdf = df[key + ["Label"]].copy()
     sdf = convert_targets_column(sdf, "Label")
     return OnDiskPsmDataset(
         filename=path, columns=cols, target_column="Label", spectrum_columns=key,
-        peptide_column="Peptide", protein_column="Proteins", feature_columns=tuple(feats),
+        peptide_column=R("Peptide"), protein_column="Proteins", feature_columns=tuple(feats),
         metadata_columns=meta, metadata_column_types=[pa_type(df[c]) for c in meta],
         level_columns=level_cols,
-        filename_column="filename" if "filename" in cols else None,
+        filename_column=R("filename") if R("filename") in cols else None,
         scan_column="ScanNr", specId_column="SpecId", calcmass_column=None,
-        expmass_column="ExpMass" if "ExpMass" in cols else None,
-        rt_column="ret_time" if "ret_time" in cols else None, charge_column=None,
+        expmass_column=R("ExpMass") if R("ExpMass") in cols else None,
+        rt_column=R("ret_time") if R("ret_time") in cols else None, charge_column=None,
         spectra_dataframe=sdf)
 
 
